@@ -184,15 +184,22 @@ def require_mc(res, what):
 
 
 def split_lines(path, k, work):
+    """Contiguous parts of about equal size in BYTES (records differ in size by orders of magnitude: a part of the
+    average number of lines can be most of the file and exhaust TLC's heap while it reads it), none above ~48 MB."""
     lines = open(path).read().splitlines()
     k = max(1, min(k, len(lines) // 200 + 1))
-    parts = []
-    for i in range(k):
-        lo, hi = i * len(lines) // k, (i + 1) * len(lines) // k
-        pth = "%s.part%d" % (path, i)
-        with open(pth, "w") as f:
-            f.write("\n".join(lines[lo:hi]) + "\n")
-        parts.append((pth, hi - lo))
+    total = sum(len(l) + 1 for l in lines)
+    k = max(k, min(len(lines), total // (48 << 20) + 1))
+    target = total / k
+    parts, lo, acc = [], 0, 0
+    for i, l in enumerate(lines):
+        acc += len(l) + 1
+        if (acc >= target * (len(parts) + 1) and len(parts) < k - 1) or i == len(lines) - 1:
+            pth = "%s.part%d" % (path, len(parts))
+            with open(pth, "w") as f:
+                f.write("\n".join(lines[lo:i + 1]) + "\n")
+            parts.append((pth, i + 1 - lo))
+            lo = i + 1
     return parts, lines
 
 
@@ -240,7 +247,7 @@ def tlc_trace(work, module, tracefile, procs=6, workers=2, timeout=3000, heap="5
         return ids, distinct, generated
 
     tlc_trace.worse = set()      # ids TLC marked as exceeding even the bounds of a known finding (Trace_Cost)
-    with ThreadPoolExecutor(max_workers=len(parts)) as ex:
+    with ThreadPoolExecutor(max_workers=max(1, min(len(parts), max(procs, 6)))) as ex:
         rs = list(ex.map(one, range(len(parts))))
     bad = sorted(set(i for r in rs for i in r[0]))
     return bad, sum(r[1] for r in rs), sum(r[2] for r in rs), lines
